@@ -18,6 +18,7 @@ From MV Require Import Doc.WF.
 From MV Require Import Doc.PostProofs.
 From MV Require Import Doc.TopProofs.
 From MV Require Import Doc.Final.
+From MV Require Import Doc.Backends.
 Import ListNotations.
 
 (* The two semantics of the renderer's instruction set agree.  For every program, every state whose
@@ -58,7 +59,15 @@ Print Assumptions C02_render_restores_cur.
    destination, image uri and alt, list enumtype / start / suffix / bullet, cell alignment and code
    language carried over.  Oracle assumptions: the lexer's token values concatenate to the code
    (O_lexer_concat), the destination canonicaliser D is invariant under normalizeLinkText (O_canon),
-   Sphinx finds no project file for a link destination (O_no_files). *)
+   Sphinx finds no project file for a link destination (O_no_files).
+   Round 2: the static grammar now contains the DYNAMIC SYNTAX - directive fences, colon-fence directives,
+   roles, substitutions, front matter - as an oracle O_dyn (the nodes and warnings the real run produced; the
+   model accepts runs that leave the document registries alone and return no section / transition / table
+   structure: dyn_static).  The image of such a token is the image of the nodes of its run (Skel.dyn_skel).
+   The premise "the model renders the forest" is still there: totality on the static grammar is NOT proved
+   (it needs the consistency of docutils' name registry through every render method); it is measured - the
+   extracted predicate Backends.static_total is evaluated on every correspondence case and no forest
+   satisfying it has failed to render (evidence counts measured:totality). *)
 Theorem C02_faithful : forall (D : str -> str) (B : backend) (C : cfg) (OR : oracles)
                               (ts : list tok) (doc : node) (ws : list str),
   O_lexer_concat OR -> O_canon D OR -> O_no_files OR ->
@@ -69,9 +78,22 @@ Theorem C02_faithful : forall (D : str -> str) (B : backend) (C : cfg) (OR : ora
 Proof. exact faithful. Qed.
 Print Assumptions C02_faithful.
 
+(* A dynamic token is spliced exactly once, at its own position: the document that consists of one directive
+   fence / role / substitution / front-matter token is the image of the nodes of that run, in order, nothing
+   else, and no node object occurs twice (inside a larger forest: C02_faithful + C03_single_occurrence). *)
+Theorem C02_dynamic_spliced_once : forall (D : str -> str) B C OR (t : tok) key ns ws doc wsd,
+  O_lexer_concat OR -> O_canon D OR -> O_no_files OR ->
+  dyn_key C OR t = DKey key -> o_dyn OR (dyn_full_key B key) = Some (ns, ws) ->
+  static_forest B C OR [t] = true ->
+  render_doc B C OR [t] = Good (doc, wsd) -> has_dropped doc = false ->
+  skel_node D doc = skel_nodes D ns /\ NoDup (oids doc).
+Proof. exact dynamic_spliced_once. Qed.
+Print Assumptions C02_dynamic_spliced_once.
+
 (* The two back ends agree on everything that is not back-end specific, at the level of the skeleton
-   (what erase_backend removes: how a code block carries its language; target nodes).  PARTIAL: the
-   attributes outside the skeleton (classes, names, ids) are compared by the correspondence check only. *)
+   (what erase_backend removes: how a code block carries its language; target nodes); for dynamic tokens under
+   the premise that the two runs have the same image (O_dyn_agree).  PARTIAL: see the next theorem and the
+   measured statement below it for the attributes outside the skeleton. *)
 Theorem C02_backends_agree_partial : forall (D : str -> str) C OR ts docD wsD docS wsS,
   O_lexer_concat OR -> O_canon D OR -> O_no_files OR -> O_dyn_agree D OR ->
   static_forest Docutils C OR ts = true -> static_forest Sphinx C OR ts = true ->
@@ -80,6 +102,33 @@ Theorem C02_backends_agree_partial : forall (D : str -> str) C OR ts docD wsD do
   flat_map erase_backend (skel_node D docD) = flat_map erase_backend (skel_node D docS).
 Proof. exact backends_agree. Qed.
 Print Assumptions C02_backends_agree_partial.
+
+(* Beyond the skeleton, FULL NODE EQUALITY.  (1) For forests without back-end specific constructs
+   (Backends.backend_free: no code block, equation label / amsmath, definition list, dynamic token; links only
+   where every link is an external URL) the two renderers are literally the same program: same doctree - every
+   node, attribute, name, id - and same warnings, no erasure at all. *)
+Theorem C02_backends_same_fragment : forall C OR ts,
+  forallb (backend_free C) ts = true -> render_doc Sphinx C OR ts = render_doc Docutils C OR ts.
+Proof. exact render_backend_free. Qed.
+Print Assumptions C02_backends_same_fragment.
+
+(* (2) For every other forest the specification of "equal up to what is Sphinx specific" is Backends.erase_be:
+   system messages; target nodes with a preset `equation-` id; a literal_block's attributes and the shape of its
+   children (language attribute vs classes + pygments inlines; text up to one final newline); on math_block
+   label / number / numbered / names; pending_xref / download_reference with the inner inline [xref, myst] vs
+   reference with refname (destination compared modulo normalizeLinkText, link title `title` vs `reftitle`);
+   ids / backrefs / refid (auto_id_prefix), docname and the pending_xref bookkeeping attributes; the MathJax
+   classes of a section.  MEASURED, not proved: Backends.agree_check evaluates trees_agree on the documents the
+   model produces under both back ends for every correspondence case without dynamic syntax (evidence counts
+   measured:backends-tree); the only differences found are the ones where the lexer oracle violates
+   O_lexer_concat (open finding backends:literal_block:pygments-stripnl).  Non-vacuity of the comparison: *)
+Example C02_backends_tree_example :
+  let ts := [tok_heading 1 [tok_text [97]]; tok_fence v_python [120; 10]; tok_math_label [97] [108]] in
+  match render_doc Docutils default_cfg dummy_oracles ts, render_doc Sphinx sphinx_cfg dummy_oracles ts with
+  | Good (d, _), Good (s, _) => trees_agree (fun x => x) d s = true /\ node_eqb d s = false
+  | _, _ => False
+  end.
+Proof. vm_compute. split; reflexivity. Qed.
 
 (* Code text is verbatim (up to one final newline) under O_lexer_concat: instance of C02_faithful for a
    document that is one fenced code block. *)
